@@ -1,19 +1,35 @@
 /- GENERATED: instance obligations for one logic, discharged by kernel evaluation.
-   `X ⊆ known`: every failing row is a committed known finding (Ptx/Gen/Known.lean). -/
+   `S` = the logic with its DOCUMENTED tables (Ptx/Sem/Spec.lean); rules, closure, trunk and frames
+   are what the translator read off the code.  `X ⊆ known`: every failing row is a committed
+   known finding (Ptx/Gen/Known.lean, generated from known_findings.json). -/
 import Ptx.Gen.L_S5FDE
 import Ptx.Gen.Known
 import Ptx.Sem.Subset
+import Ptx.Props.C01
+import Ptx.Gen.L_FDE
 namespace Ptx.Gen.Obl.S5FDE
 open Ptx
 
-theorem tables_total : Gen.S5FDE.tablesTotalB = true := by decide +kernel
-theorem rules_exact : subsetB Gen.S5FDE.badRules (Known.badRules "S5FDE") = true := by decide +kernel
-theorem rules_sound : subsetB Gen.S5FDE.unsoundRules (Known.unsoundRules "S5FDE") = true := by decide +kernel
-theorem rules_total : subsetB Gen.S5FDE.missingRules (Known.missingRules "S5FDE") = true := by decide +kernel
-theorem rules_local : Gen.S5FDE.nonLocalRules = [] := by decide +kernel
-theorem closure_total : Gen.S5FDE.closureTotalB = true := by decide +kernel
-theorem closure_exact : subsetB Gen.S5FDE.badClosure (Known.badClosure "S5FDE") = true := by decide +kernel
-theorem read_total : Gen.S5FDE.readTotalB = true := by decide +kernel
-theorem read_exact : subsetB Gen.S5FDE.badRead (Known.badRead "S5FDE") = true := by decide +kernel
+/-- a modal / first-order extension has exactly the truth-functional tables of its base (FDE) -/
+theorem base_tables : Gen.S5FDE.tables.sameTF Gen.FDE.tables = true := by decide +kernel
+theorem spec_defined : Gen.S5FDE.specDefinedB = true := by decide +kernel
+theorem tables_spec : subsetB Gen.S5FDE.tableDiff (Known.tableDiff "S5FDE") = true := by decide +kernel
+theorem defined_ops : Gen.S5FDE.tables.definedOpsBad = [] := by decide +kernel
+theorem tables_total : Gen.S5FDE.sem.tablesTotalB = true := by decide +kernel
+theorem rules_exact : subsetB Gen.S5FDE.sem.badRules (Known.badRules "S5FDE") = true := by decide +kernel
+theorem rules_sound : subsetB Gen.S5FDE.sem.unsoundRules (Known.unsoundRules "S5FDE") = true := by decide +kernel
+theorem rules_total : subsetB Gen.S5FDE.sem.missingRules (Known.missingRules "S5FDE") = true := by decide +kernel
+theorem rules_local : Gen.S5FDE.sem.nonLocalRules = [] := by decide +kernel
+theorem closure_total : Gen.S5FDE.sem.closureTotalB = true := by decide +kernel
+theorem closure_exact : subsetB Gen.S5FDE.sem.badClosure (Known.badClosure "S5FDE") = true := by decide +kernel
+theorem read_total : Gen.S5FDE.sem.readTotalB = true := by decide +kernel
+theorem read_exact : subsetB Gen.S5FDE.sem.badRead (Known.badRead "S5FDE") = true := by decide +kernel
+theorem sound_core : Gen.S5FDE.sem.soundCoreB = true := by decide +kernel
+
+/-- C01 for this logic: a closed tableau reached by any legal derivation has no countermodel. -/
+theorem c01_valid_sound (arg : Argument) (t : Tableau)
+    (hd : Deriv Gen.S5FDE.sem.soundPart.noQuantPart (trunk Gen.S5FDE.sem arg) t) (hclosed : t.allClosed = true)
+    (M : Struct) (hM : M.Interp Gen.S5FDE.sem) (e : Env M.D) (w0 : M.W) : ¬ Countermodel Gen.S5FDE.sem M e w0 arg :=
+  Props.C01.C01_valid_sound_partial Gen.S5FDE.sem sound_core arg t hd hclosed M hM e w0
 
 end Ptx.Gen.Obl.S5FDE
